@@ -115,6 +115,9 @@ func hostSeqRequests(rnd *hx.Rand, routes []hsRoute, n int) []hsReq {
 func hostSeq(rnd *hx.Rand, id int, st *hx.Stats) (obs []concObs, suspicious bool) {
 	routes := hostSeqRoutes(rnd)
 	b := newB(rnd, id)
+	for _, r := range routes {
+		b.notePattern(r.pattern)
+	}
 	patID := map[string]int{}
 	var got *View
 	var gotOK bool
@@ -179,7 +182,7 @@ func hostSeq(rnd *hx.Rand, id int, st *hx.Stats) (obs []concObs, suspicious bool
 				o.human = fmt.Sprintf("host sequence %d round %d: GET %s%s: handler not invoked", id, round, q.host, q.path)
 			} else {
 				o.v, o.bad = *seen, !sok
-				if seen.Route != fresh.Route || !sameKVs(seen.Params, fresh.Params) || seen.Scope != fresh.Scope {
+				if seen.Route != fresh.Route || !sameKVs(seen.Params, fresh.Params) || seen.Scope != fresh.Scope || seen.paramOdd() {
 					st.Count("hostseq:DIFFERS-from-fresh-router") // informal pre-check; the verdict is Coq's
 					suspicious = true
 				}
